@@ -84,10 +84,36 @@ Record site := { s_ctx : option bk; s_env : penv }.
 Definition default_backend : bk := {| bkind := KLoky; blevel := 0 |}.
 Definition active (s : site) : bk := match s_ctx s with Some b => b | None => default_backend end.
 
-(* Parallel.__init__: backend=None -> the active one; backend='name' -> that class at the active
-   backend's nesting level *)
-Definition chosen (s : site) (bsel : option kind) : bk :=
-  match bsel with None => active s | Some k => {| bkind := k; blevel := blevel (active s) |} end.
+(* the hints of the call itself: resolved codes of prefer (0 None, 1 'threads', 2 'processes') and require
+   (0 None, 1 'sharedmem'); inside workers the context installed by joblib carries no hints of its own *)
+Record hint := { h_prefer : Z; h_require : Z }.
+Definition no_hint : hint := {| h_prefer := 0; h_require := 0 |}.
+Definition hint_valid (h : hint) : bool :=
+  ((h_prefer h =? 0) || (h_prefer h =? 1) || (h_prefer h =? 2)) && ((h_require h =? 0) || (h_require h =? 1)) &&
+  negb ((h_prefer h =? 2) && (h_require h =? 1)).
+Definition kind_shm (k : kind) : bool := match k with KSeq | KThr => true | _ => false end.   (* = uses_threads *)
+
+(* _get_active_backend(prefer, require) at this site (hand model; Proofs/NJobs.v shows it is the function REGENERATED
+   from joblib/parallel.py applied to the site's context): a backend named by the context is explicit, so only
+   require='sharedmem' can replace it; the default backend (loky) yields to prefer='threads' / require='sharedmem' *)
+Definition active_h (s : site) (h : hint) : result bk :=
+  if negb (hint_valid h) then Raise ValueError
+  else match s_ctx s with
+       | Some b => if (h_require h =? 1) && negb (kind_shm (bkind b))
+                   then Ok {| bkind := KThr; blevel := blevel b |} else Ok b
+       | None => if (h_require h =? 1) || (h_prefer h =? 1)
+                 then Ok {| bkind := KThr; blevel := 0 |} else Ok default_backend
+       end.
+
+(* Parallel.__init__: backend=None -> the active one; backend='name' -> that class at the active backend's nesting
+   level, refused with require='sharedmem' when it has no shared memory *)
+Definition chosen_r (s : site) (bsel : option kind) (h : hint) : result bk :=
+  bind (active_h s h) (fun ab =>
+  match bsel with
+  | None => Ok ab
+  | Some k => if (h_require h =? 1) && negb (kind_shm k) then Raise ValueError
+              else Ok {| bkind := k; blevel := blevel ab |}
+  end).
 
 Definition with_env (e : penv) (main daemon : bool) (depth : Z) : penv :=
   {| e_mp_none := e_mp_none e; e_cpus := e_cpus e; e_daemon := daemon; e_depth := depth; e_main := main |}.
@@ -107,19 +133,19 @@ Definition worker_site (s : site) (b : bk) : site :=
   end.
 
 (* a tree of nested calls: Parallel(n_jobs=n, backend=bsel) whose tasks make the calls [children] *)
-Inductive call := Call (bsel : option kind) (n : Z) (children : list call).
+Inductive call := Call (bsel : option kind) (h : hint) (n : Z) (children : list call).
 
 (* what one call resolves to, for the correspondence check: backend class that runs it, its
    nesting level, its number of workers; ValueError for n_jobs = 0 *)
-Definition call_outcome (s : site) (bsel : option kind) (n : Z) : result (bk * Z) :=
-  configure (chosen s bsel) (s_env s) n.
+Definition call_outcome (s : site) (bsel : option kind) (h : hint) (n : Z) : result (bk * Z) :=
+  bind (chosen_r s bsel h) (fun b => configure b (s_env s) n).
 
 (* worker processes requested by the whole tree (each process-backed call that really goes
    parallel counts its workers; calls that fail with ValueError run nothing) *)
 Fixpoint procs (s : site) (c : call) {struct c} : Z :=
   match c with
-  | Call bsel n children =>
-      match call_outcome s bsel n with
+  | Call bsel h n children =>
+      match call_outcome s bsel h n with
       | Raise _ => 0
       | Ok (b, eff) =>
           let ws := worker_site s b in
@@ -133,8 +159,8 @@ Fixpoint procs (s : site) (c : call) {struct c} : Z :=
    which is inside at most one of the nested calls at a time *)
 Fixpoint conc (s : site) (c : call) {struct c} : Z :=
   match c with
-  | Call bsel n children =>
-      match call_outcome s bsel n with
+  | Call bsel h n children =>
+      match call_outcome s bsel h n with
       | Raise _ => 0
       | Ok (b, eff) =>
           let ws := worker_site s b in
@@ -145,7 +171,7 @@ Fixpoint conc (s : site) (c : call) {struct c} : Z :=
 (* the largest resolved n_jobs anywhere in the tree (at least 1) *)
 Fixpoint maxres (cpus : Z) (c : call) {struct c} : Z :=
   match c with
-  | Call _ n children =>
+  | Call _ _ n children =>
       Z.max (Z.max 1 (resolve cpus n))
             ((fix go (l : list call) : Z := match l with [] => 1 | ch :: t => Z.max (maxres cpus ch) (go t) end) children)
   end.
@@ -153,9 +179,18 @@ Fixpoint maxres (cpus : Z) (c : call) {struct c} : Z :=
 (* every call of the tree leaves the backend to the defaults *)
 Fixpoint default_tree (c : call) : bool :=
   match c with
-  | Call bsel _ children =>
+  | Call bsel _ _ children =>
       match bsel with None => true | Some _ => false end &&
       (fix go (l : list call) : bool := match l with [] => true | ch :: t => default_tree ch && go t end) children
+  end.
+
+(* ... and, moreover, passes no hint anywhere *)
+Definition is_no_hint (h : hint) : bool := (h_prefer h =? 0) && (h_require h =? 0).
+Fixpoint nohint_tree (c : call) : bool :=
+  match c with
+  | Call bsel h _ children =>
+      match bsel with None => true | Some _ => false end && is_no_hint h &&
+      (fix go (l : list call) : bool := match l with [] => true | ch :: t => nohint_tree ch && go t end) children
   end.
 
 (* the interpreter's main thread, outside any context manager, multiprocessing available *)
